@@ -300,8 +300,8 @@ def gen_doc(rng, fmt, w=None, nmeas=None, nstaves=None):
     doc = {"fmt": fmt, "meter": list(meter), "key": key, "staves": staves, "measures": []}
     o = {}
     if fmt == "mei":
-        o["meter_as"] = rng.choice(["staffdef_attr", "staffdef_child", "scoredef_attr"])
-        o["key_as"] = rng.choice(["staffdef_attr", "staffdef_child", "scoredef_attr"])
+        o["meter_as"] = rng.choice(["staffdef_attr", "staffdef_child", "scoredef_attr", "scoredef_child"])
+        o["key_as"] = rng.choice(["staffdef_attr", "staffdef_child", "scoredef_attr", "scoredef_child"])
         o["clef_as"] = rng.choice(["attr", "child"])
         o["group"] = rng.choice(["flat", "nested"])
         o["ppq"] = rng.choice([None, None, None, "declared"])
@@ -433,6 +433,11 @@ def write_mei(doc):
         if doc["key"][1]:
             sd_attr += ' key.mode="%s"' % doc["key"][1]
     L.append('<scoreDef xml:id="sd0"%s>' % sd_attr)
+    if o["meter_as"] == "scoredef_child":
+        L.append('<meterSig xml:id="%s" count="%d" unit="%d"/>' % (nid("ms"), doc["meter"][0], doc["meter"][1]))
+    if o["key_as"] == "scoredef_child":
+        L.append('<keySig xml:id="%s" sig="%s"%s/>' % (nid("ks"), mei_sig(doc["key"][0]),
+                                                       ' mode="%s"' % doc["key"][1] if doc["key"][1] else ""))
     L.append('<staffGrp xml:id="sg0">')
     if o["group"] == "nested":
         L.append('<staffGrp xml:id="sg1" symbol="brace">')
@@ -939,3 +944,122 @@ def fmt_row(r):
 
 def fmt_any(x):
     return json.dumps(x, default=str)
+
+
+# --------------------------------------------------------------------------
+# export direction: abstract document -> Part (partitura API) -> save_mei / save_kern -> reload
+
+SYM = {1: "whole", 2: "half", 4: "quarter", 8: "eighth", 16: "16th", 32: "32nd", 64: "64th", 128: "128th", 256: "256th"}
+
+EXPORT_W = {"space": 0.0, "mrest": 0.0, "short_layer": 0.0, "grace": 0.0, "pickup": 0.0, "meter_change": 0.0,
+            "key_change": 0.0, "repeat": 0.0, "ending": 0.0, "explicit_natural": 0.0}
+
+
+def build_part(doc):
+    """One Part with one staff per doc staff, voice = 2*staff_index + layer + 1 (unique per staff)."""
+    import partitura.score as S
+    den = denote(doc)
+    dens = [1]
+    for si in range(len(doc["staves"])):
+        for li in range(2):
+            for e in den["layers"][si][li]:
+                dens += [e["onset"].denominator, e["dur"].denominator]
+    dens += [t.denominator for t in den["mstarts"]] + [den["end"].denominator]
+    divs = 1
+    for d in dens:
+        divs = divs * d // math.gcd(divs, d)
+    part = S.Part("P1", "c19", quarter_duration=divs)
+    part.add(S.TimeSignature(doc["meter"][0], doc["meter"][1]), 0)
+    part.add(S.KeySignature(doc["key"][0], doc["key"][1] or "major"), 0)
+    for st in doc["staves"]:
+        part.add(S.Clef(st["n"], st["clef"][0], st["clef"][1], 0), 0)
+    rows = []
+    k = 0
+    for si, st in enumerate(doc["staves"]):
+        for li in range(2):
+            prev = None
+            # tuplet groups: walk the trees again to find first/last event of each group
+            evs = den["layers"][si][li]
+            flat_evs = []
+            groups = []
+            for m in doc["measures"]:
+                if li >= len(m["content"][si]):
+                    continue
+
+                def walk(nodes, t):
+                    for nd in nodes:
+                        if "beam" in nd:
+                            walk(nd["beam"], t)
+                        elif "tuplet" in nd:
+                            a = len(flat_evs)
+                            walk(nd["items"], tuple(nd["tuplet"]))
+                            groups.append((a, len(flat_evs) - 1))
+                        elif nd["k"] != "s":
+                            flat_evs.append((nd, t))
+                walk(m["content"][si][li], None)
+            assert len(flat_evs) == len(evs)
+            objs = []
+            for (nd, t), e in zip(flat_evs, evs):
+                sd = {"type": SYM[nd["v"]]}
+                if nd.get("d"):
+                    sd["dots"] = nd["d"]
+                if t:
+                    sd["actual_notes"], sd["normal_notes"] = t
+                a, b = int(e["onset"] * divs), int((e["onset"] + e["dur"]) * divs)
+                voice = 2 * si + li + 1
+                these = []
+                if e["k"] == "r":
+                    k += 1
+                    o_ = S.Rest(id="r%d" % k, voice=voice, staff=st["n"], symbolic_duration=dict(sd))
+                    part.add(o_, a, b)
+                    these.append(o_)
+                else:
+                    for p in e["p"]:
+                        k += 1
+                        o_ = S.Note(step=p[0], octave=p[2], alter=p[1], id="n%d" % k, voice=voice, staff=st["n"], symbolic_duration=dict(sd))
+                        part.add(o_, a, b)
+                        these.append(o_)
+                        rows.append((F(a, divs), F(b - a, divs), midi(p), st["n"]))
+                    if prev is not None:
+                        for x, y in zip(prev, these):
+                            x.tie_next = y
+                            y.tie_prev = x
+                prev = these if (e["k"] != "r" and e["tie"]) else None
+                objs.append(these)
+            for a, b in groups:
+                tp = S.Tuplet(objs[a][0], objs[b][0])
+                part.add(tp, objs[a][0].start.t, objs[b][0].end.t)
+    for mi, t in enumerate(den["mstarts"]):
+        end = den["mstarts"][mi + 1] if mi + 1 < len(den["mstarts"]) else den["end"]
+        part.add(S.Measure(number=mi + 1), int(t * divs), int(end * divs))
+    return part, sorted(rows)
+
+
+def export_roundtrip(doc, fmt):
+    """Returns ('ok', expected rows, loaded rows) | ('err', text).  Rows: (onset, duration, midi pitch, staff)
+    of every Note object (not joined)."""
+    import partitura as pt
+    import partitura.score as S
+    try:
+        part, rows = build_part(doc)
+    except Exception as ex:
+        return ("builderr", "%s: %s" % (type(ex).__name__, ex))
+    path = os.path.join(work_dir(), "export." + ("mei" if fmt == "mei" else "krn"))
+    try:
+        if fmt == "mei":
+            pt.save_mei(part, path)
+        else:
+            pt.save_kern(part, path)
+        sc = pt.load_score(path)
+    except Exception as ex:
+        import traceback
+        tb = traceback.extract_tb(ex.__traceback__)
+        return ("err", "%s: %s @ %s:%d %s" % (type(ex).__name__, str(ex)[:200], os.path.basename(tb[-1].filename), tb[-1].lineno, tb[-1].name))
+    got = []
+    for p in sc.parts:
+        dv = int(p._quarter_durations[0])
+        for n in p.iter_all(S.Note, include_subclasses=True):
+            got.append((F(int(n.start.t), dv), F(int(n.end.t - n.start.t), dv), int(n.midi_pitch), n.staff))
+    with open(path) as f:
+        text = f.read()
+    return ("ok", rows, sorted(got), text)
